@@ -40,7 +40,33 @@ func sec1String(r *gen.Rng, pool []namedPt) ([]byte, string) {
 	put := func(dst []byte, v *big.Int) { // v < 2^256
 		copy(dst, b32(v))
 	}
-	switch r.Intn(24) {
+	switch r.Intn(26) {
+	case 24, 25:
+		// a VALID encoding re-cut: prefix byte dropped (raw X||Y, bare X), leading or
+		// trailing bytes removed or added, the body of one form under the length of the
+		// other - lengths a decoder must reject no matter how plausible the bytes are
+		b := append([]byte{}, unc...)
+		if r.Chance(1, 3) {
+			b = append([]byte{}, cmp...)
+		}
+		switch r.Intn(6) {
+		case 0:
+			return b[1:], "valid-body-recut:prefix-dropped"
+		case 1:
+			return b[r.Intn(len(b)):], "valid-body-recut:front-removed"
+		case 2:
+			return b[:r.Intn(len(b))], "valid-body-recut:back-removed"
+		case 3:
+			return append(r.Bytes(1+r.Intn(3)), b...), "valid-body-recut:front-added"
+		case 4:
+			return append(append([]byte{b[0]}, b[0]), b[1:]...), "valid-body-recut:prefix-doubled"
+		default:
+			// X||Y under the compressed prefix, X alone under the uncompressed prefix
+			if r.Bool() {
+				return append([]byte{byte(2 + r.Intn(2))}, unc[1:]...), "valid-body-recut:wrong-prefix-for-length"
+			}
+			return append([]byte{4}, unc[1:33]...), "valid-body-recut:wrong-prefix-for-length"
+		}
 	case 22, 23:
 		// OFF-curve (x, y) whose curve-equation sides y^2 and x^3+7 differ, in their STORED
 		// (Montgomery) form, in exactly one 64-bit limb or one bit: an equality helper that
@@ -219,7 +245,7 @@ func runC06(r *mon.Run) {
 	pool := knownPointPool(r.Seed, r.N(8, 40))
 	np := len(pool)
 	for _, c := range []string{"valid-uncompressed", "valid-compressed", "valid-identity", "x+p-alias", "y+p-alias", "x>=p", "y>=p", "compressed-nonresidue-x", "hybrid",
-		"y-off-by-one", "truncated", "extended", "zeros", "valid-special-coordinate"} {
+		"y-off-by-one", "truncated", "extended", "zeros", "valid-special-coordinate", "valid-body-recut:prefix-dropped", "valid-body-recut:front-removed", "valid-body-recut:wrong-prefix-for-length"} {
 		r.Require("c06:str:" + c)
 	}
 	r.Require("c06:accept", "c06:reject", "c06:rcv:uninitialised", "c06:rcv:point")
